@@ -22,7 +22,8 @@ package auth
 //@   safety
 //@   modifies nothing
 //@   loop 1 invariant none-so-far: forall k :: 0 <= k && k <= rangeindex ==> callerPerms[k] != perm [C19]
-//@   ensures iff-member: result == member(callerSet(ctx, defaultPerms), perm) [C19]
+//@   ensures found-has-witness: result ==> 0 <= rangeindex && rangeindex < len(callerSet(ctx, defaultPerms)) && callerSet(ctx, defaultPerms)[rangeindex] == perm [C19]
+//@   ensures not-found-means-absent: !result ==> (forall k :: 0 <= k && k < len(callerSet(ctx, defaultPerms)) ==> callerSet(ctx, defaultPerms)[k] != perm) [C19]
 //@   nopanic [C19]
 
 //@ func auth.PermissionedProxy
